@@ -230,6 +230,8 @@ PROPS = {
                              search=[('resources', ['-n', 30000]), ('arith', ['-n', 100000])]),
                 aspects=['podTotal', 'lpMem', 'lpCPU', 'capTotal', 'laMem', 'laCPU', 'remaining', 'perm-invariance', 'pct-kind', 'pct-bits', 'panic'],
                 monitors=['C13'],
+                decisive={'podTotal': 'Esc.P.C13_totals: the model total is the sum over pods of max(sum containers, largest init) + overhead',
+                          'capTotal': 'Esc.P.C13_capacity: the model capacity is the sum of allocatable over the given nodes'},
                 theorems=['Esc.P.C13_pod', 'Esc.P.C13_totals', 'Esc.P.C13_capacity', 'Esc.P.C13_perm_pods', 'Esc.P.C13_perm_nodes',
                           'Esc.P.C13_nodeAvail_perm', 'Esc.P.largestPending_inv', 'Esc.P.C13_percent_exact', 'Esc.P.foldl_max_spec'],
                 technique='Lean 4 theorem (closed forms of the folds; permutation invariance via commutative digests and List.Perm.foldl_eq\') + bit-exact differential correspondence of calculators and percentages + metamorphic permutation monitor',
@@ -241,6 +243,9 @@ PROPS = {
     'C14': dict(level='proof', module='EscProofs.P.C14',
                 streams=dict(quick=[('filters', [])], thorough=[('filters', [])], search=[('filters', [])]),
                 aspects=['affinity', 'default', 'match', 'bad-case'], monitors=[],
+                decisive={'affinity': 'Esc.P.C14_pod: the model filter is equivalent to the documented pod attribution rule',
+                          'default': 'Esc.P.C14_default: the model filter is equivalent to the documented default-group rule',
+                          'match': 'Esc.P.C14_node: the model filter is equivalent to the documented node rule'},
                 theorems=['Esc.P.C14_pod', 'Esc.P.C14_default', 'Esc.P.C14_node', 'Esc.P.C14_static', 'Esc.P.C14_required_terms', 'Esc.P.C14_view'],
                 technique='Lean 4 theorem (filter <-> documented rule, for all pods/nodes) + exhaustive small-scope differential correspondence with the real filter functions',
                 level_text='C14_pod / C14_default / C14_node: the three filters are equivalent to the documented attribution rules for every pod and node; C14_view: a group\'s view is exactly the filtered lists. '
